@@ -122,6 +122,9 @@ def random_type(rng, traits, opts=None):
             continue
         if k.key in EXCLUDE_KINDS:
             continue
+        if k.key == "RefG" and "Default" in tset:
+            # a `&'a G` field can neither be defaulted nor given a generic expression
+            continue
         if "Default" in derives and "Default" not in k.caps:
             continue
         # partner std derives need the capability on every field
@@ -392,7 +395,7 @@ def decorate(rng, td, o):
                     continue
                 if copy and "copy_enum_method" in o.avoid:
                     continue
-                if f.kind.key == "RefT":
+                if f.kind.key in ("RefT", "RefG"):
                     continue
                 f.sem["Clone"] = {"method": RT + "clone_alt"}
         td.tsem["Clone"] = {}
